@@ -29,14 +29,15 @@ import (
 // final for that step (what happened AND what did not happen, without timeouts).
 
 type c02Act struct {
-	K string // tick | pstop | complete | completeerr | consume | stop | fail | sleep
-	A int    // complete(err): which in-transport request (index modulo); stop: number of concurrent callers; sleep: virtual milliseconds
+	K string // tick | burst | pstop | complete | completeerr | consume | stop | fail | bad | sleep
+	A int    // complete(err): which in-transport request (index modulo); stop: number of concurrent callers; sleep: virtual milliseconds; burst: hits released back to back
 }
 
 type c02Case struct {
 	Workers    uint64
 	MaxWorkers uint64
-	DNSTTLms   int // > 0: the attacker also gets DNSCaching(ttl), whose refresh goroutine must end with the attack
+	DNSTTLms   int  // > 0: the attacker also gets DNSCaching(ttl), whose refresh goroutine must end with the attack
+	MaxFirst   bool `json:",omitempty"` // the MaxWorkers option is given before the Workers option
 	Script     []c02Act
 }
 
@@ -46,9 +47,12 @@ func (c c02Case) String() string {
 	if c.DNSTTLms > 0 {
 		fmt.Fprintf(&b, " dns-ttl=%dms", c.DNSTTLms)
 	}
+	if c.MaxFirst {
+		b.WriteString(" max-workers-option-first")
+	}
 	for _, a := range c.Script {
 		fmt.Fprintf(&b, " %s", a.K)
-		if a.K == "complete" || a.K == "completeerr" || a.K == "stop" || a.K == "sleep" {
+		if a.K == "complete" || a.K == "completeerr" || a.K == "stop" || a.K == "sleep" || a.K == "burst" {
 			fmt.Fprintf(&b, "(%d)", a.A)
 		}
 	}
@@ -68,6 +72,9 @@ type c02World struct {
 	targeterCalls int
 	failNext      bool
 	failedCalls   []int // indices (0-based) of targeter calls that failed
+	badNext       bool
+	badCalls      []int // indices of targeter calls that handed out a target no request can be built from
+	auto          int   // pacer consultations to answer "no wait" at once, without the harness in between
 	entered       []uint64
 	gates         map[uint64]chan error
 }
@@ -76,6 +83,11 @@ func (w *c02World) Pace(elapsed time.Duration, hits uint64) (time.Duration, bool
 	w.mu.Lock()
 	w.pacerCalls = append(w.pacerCalls, hits)
 	w.pacerElapsed = append(w.pacerElapsed, elapsed)
+	if w.auto > 0 {
+		w.auto--
+		w.mu.Unlock()
+		return 0, false
+	}
 	w.mu.Unlock()
 	a := <-w.pacerCh
 	return a.wait, a.stop
@@ -93,6 +105,13 @@ func (w *c02World) target(t *vegeta.Target) error {
 		w.failNext = false
 		w.failedCalls = append(w.failedCalls, idx)
 		return errC02Target
+	}
+	if w.badNext {
+		// handed out without error, but no request can be built from it
+		w.badNext = false
+		w.badCalls = append(w.badCalls, idx)
+		*t = []vegeta.Target{{Method: "GE T", URL: "c02://c02.test/"}, {Method: "GET", URL: "c02://c02 .test/"}, {Method: "GET", URL: "c02://c02.test/\x7f"}}[idx%3]
+		return nil
 	}
 	*t = vegeta.Target{Method: "GET", URL: "c02://c02.test/"}
 	return nil
@@ -122,6 +141,7 @@ type c02Result struct {
 	stopInFlight bool     // a stop cause happened while >= 1 hit was in flight
 	started      int
 	closedOK     bool
+	burst        bool
 }
 
 // execC02 must be called inside a synctest bubble.
@@ -131,6 +151,9 @@ func execC02(c c02Case) (res c02Result, err error) {
 	htr := &http.Transport{}
 	htr.RegisterProtocol("c02", w)
 	opts := []func(*vegeta.Attacker){vegeta.Client(&http.Client{Transport: htr}), vegeta.Workers(c.Workers), vegeta.MaxWorkers(c.MaxWorkers)}
+	if c.MaxFirst {
+		opts[1], opts[2] = opts[2], opts[1]
+	}
 	if c.DNSTTLms > 0 {
 		opts = append(opts, vegeta.DNSCaching(time.Duration(c.DNSTTLms)*time.Millisecond))
 	}
@@ -141,20 +164,21 @@ func execC02(c c02Case) (res c02Result, err error) {
 	M := int(c.MaxWorkers)
 	var (
 		grants, started, consumed int
-		inTransport              []uint64
-		finished                 int // hits whose result waits to be consumed
-		pending                  bool
-		stopRequested            bool // the stop channel is closed (Stop call or targeter failure)
-		internalStop             bool // the attack itself called Stop (targeter failure / end of attack)
-		pacerStopped, loopEnded  bool
-		closed                   bool
-		failedSeq                = map[uint64]bool{}
-		erroredSeq               = map[uint64]bool{} // the transport failed for these
-		endedStop                bool                // the attack has ended and (in today's code) called Stop itself
-		received                 = map[uint64]bool{}
-		stopTrue                 int
-		firstStopBeforeInternal  = -1 // -1 no Stop call yet, 1 first call preceded any internal stop, 0 otherwise
-		history                  []string
+		inTransport               []uint64
+		finished                  int // hits whose result waits to be consumed
+		pending                   bool
+		stopRequested             bool // the stop channel is closed (Stop call or targeter failure)
+		internalStop              bool // the attack itself called Stop (targeter failure / end of attack)
+		pacerStopped, loopEnded   bool
+		closed                    bool
+		failedSeq                 = map[uint64]bool{}
+		badSeq                    = map[uint64]bool{} // the targeter handed out a malformed target for these
+		erroredSeq                = map[uint64]bool{} // the transport failed for these
+		endedStop                 bool                // the attack has ended and (in today's code) called Stop itself
+		received                  = map[uint64]bool{}
+		stopTrue                  int
+		firstStopBeforeInternal   = -1 // -1 no Stop call yet, 1 first call preceded any internal stop, 0 otherwise
+		history                   []string
 	)
 	fail := func(format string, a ...any) error {
 		return fmt.Errorf("workers=%d max=%d after [%s]: %s", c.Workers, c.MaxWorkers, strings.Join(history, " "), fmt.Sprintf(format, a...))
@@ -181,6 +205,12 @@ func execC02(c c02Case) (res c02Result, err error) {
 					isFailed = true
 				}
 			}
+			isBad := false
+			for _, f := range w.badCalls {
+				if f == i {
+					isBad = true
+				}
+			}
 			if isFailed {
 				failedSeq[seq] = true
 				finished++
@@ -188,6 +218,10 @@ func execC02(c c02Case) (res c02Result, err error) {
 				if len(inTransport) > 0 {
 					res.stopInFlight = true
 				}
+			} else if isBad {
+				// no request can be built: the hit delivers an error result at once, the attack goes on
+				badSeq[seq] = true
+				finished++
 			} else {
 				inTransport = append(inTransport, seq)
 			}
@@ -196,7 +230,7 @@ func execC02(c c02Case) (res c02Result, err error) {
 		// every non-failed started hit must have entered the transport with its own sequence number
 		wantEnt := 0
 		for s := 0; s < started; s++ {
-			if !failedSeq[uint64(s)] {
+			if !failedSeq[uint64(s)] && !badSeq[uint64(s)] {
 				wantEnt++
 			}
 		}
@@ -205,7 +239,7 @@ func execC02(c c02Case) (res c02Result, err error) {
 		}
 		for i := prevEnt; i < len(w.entered); i++ {
 			s := w.entered[i]
-			if int(s) >= started || failedSeq[s] {
+			if int(s) >= started || failedSeq[s] || badSeq[s] {
 				return newTC, fmt.Errorf("transport saw sequence number %d which no started hit owns", s)
 			}
 			for j := 0; j < i; j++ {
@@ -266,6 +300,10 @@ func execC02(c c02Case) (res c02Result, err error) {
 		if failedSeq[r.Seq] {
 			if r.Error == "" {
 				return fail("C02: hit %d whose targeter failed delivered a result without error", r.Seq)
+			}
+		} else if badSeq[r.Seq] {
+			if r.Error == "" || r.Code != 0 {
+				return fail("C06: hit %d whose target is malformed (no request can be built) delivered code %d error %q", r.Seq, r.Code, r.Error)
 			}
 		} else {
 			if erroredSeq[r.Seq] {
@@ -340,6 +378,12 @@ func execC02(c c02Case) (res c02Result, err error) {
 		}
 		if pacerWaiting() {
 			e = append(e, "tick", "pstop")
+			w.mu.Lock()
+			fn := w.failNext || w.badNext // (which of several concurrent hits draws the special target is not determined)
+			w.mu.Unlock()
+			if !stopRequested && !fn && M-(started-consumed) >= 2 {
+				e = append(e, "burst")
+			}
 		}
 		if len(inTransport) > 0 {
 			e = append(e, "complete", "completeerr")
@@ -350,8 +394,8 @@ func execC02(c c02Case) (res c02Result, err error) {
 		}
 		e = append(e, "stop")
 		w.mu.Lock()
-		if !w.failNext && !loopEnded {
-			e = append(e, "fail")
+		if !w.failNext && !w.badNext && !loopEnded {
+			e = append(e, "fail", "bad")
 		}
 		w.mu.Unlock()
 		return e
@@ -414,6 +458,37 @@ func execC02(c c02Case) (res c02Result, err error) {
 					loopEnded = true
 				}
 			}
+		case "burst":
+			// the pacer releases several hits back to back (an attacker catching up, or an unlimited
+			// rate): with free capacity every one of them starts without waiting for a response
+			b := a.A
+			if free := M - busyBefore; b > free {
+				b = free
+			}
+			if b < 2 {
+				b = 2
+			}
+			w.mu.Lock()
+			w.auto = b - 1
+			w.mu.Unlock()
+			w.pacerCh <- c02PacerAns{0, false}
+			grants += b
+			synctest.Wait()
+			n, err := absorbStarts()
+			if err != nil {
+				return fail("%v", err)
+			}
+			w.mu.Lock()
+			unasked := w.auto
+			w.auto = 0
+			w.mu.Unlock()
+			if n != b {
+				return fail("C03: the pacer released %d hits back to back while %d of %d workers were busy, but %d hits started (each must start without waiting for another request; %d releases not even asked for)", b, busyBefore, M, n, unasked)
+			}
+			if !pacerWaiting() {
+				return fail("the attack did not consult the pacer again after releasing %d hits back to back", b)
+			}
+			res.burst = true
 		case "pstop":
 			w.pacerCh <- c02PacerAns{0, true}
 			grants++
@@ -525,6 +600,10 @@ func execC02(c c02Case) (res c02Result, err error) {
 			w.mu.Lock()
 			w.failNext = true
 			w.mu.Unlock()
+		case "bad":
+			w.mu.Lock()
+			w.badNext = true
+			w.mu.Unlock()
 		}
 		// after a stop cause the loop ends as soon as it notices: a granted tick either released one more hit or ended the loop
 		if stopRequested && !loopEnded && !pacerWaiting() && !pending {
@@ -611,6 +690,8 @@ func execC02(c c02Case) (res c02Result, err error) {
 // library package (harness code lives in package lib_test and does not count).
 var c02LibFrame = regexp.MustCompile(`(?m)^\t\S*/lib/[a-z0-9]+\.go:\d+`) // non-test sources of package lib (harness files are zz_verif_*_test.go)
 
+var c02Bubble = regexp.MustCompile(`synctest bubble \d+`)
+
 func c02AttackGoroutines() []string {
 	buf := make([]byte, 1<<20)
 	buf = buf[:runtime.Stack(buf, true)]
@@ -618,7 +699,13 @@ func c02AttackGoroutines() []string {
 		fmt.Println(string(buf))
 	}
 	var out []string
-	for _, g := range strings.Split(string(buf), "\n\n") {
+	// only goroutines of this bubble count: a case that failed earlier left its attack unfinished on purpose
+	stacks := strings.Split(string(buf), "\n\n")
+	mine := c02Bubble.FindString(stacks[0]) // the calling goroutine comes first
+	for _, g := range stacks {
+		if hdr, _, _ := strings.Cut(g, "\n"); mine != "" && c02Bubble.FindString(hdr) != mine {
+			continue
+		}
 		// (inlined closures carry the caller's package in their name, so go by source file)
 		if c02LibFrame.MatchString(g) && !strings.Contains(g, "c02AttackGoroutines") {
 			if len(g) > 1200 {
@@ -666,7 +753,7 @@ func runC02(c c02Case) error {
 	return err
 }
 
-var c02Kinds = []string{"tick", "tick", "tick", "tick", "complete", "complete", "completeerr", "consume", "consume", "consume", "stop", "pstop", "fail", "sleep"}
+var c02Kinds = []string{"tick", "tick", "tick", "tick", "burst", "bad", "complete", "complete", "completeerr", "consume", "consume", "consume", "stop", "pstop", "fail", "sleep"}
 
 func c02Classify(c c02Case, res c02Result) (bool, []string) {
 	var labels []string
@@ -681,6 +768,18 @@ func c02Classify(c c02Case, res c02Result) (bool, []string) {
 			labels = append(labels, "targeter-failure")
 			break
 		}
+	}
+	for _, k := range res.executed {
+		if k == "bad" {
+			labels = append(labels, "malformed-target")
+			break
+		}
+	}
+	if res.burst {
+		labels = append(labels, "back-to-back-releases")
+	}
+	if c.MaxFirst && c.Workers > c.MaxWorkers {
+		labels = append(labels, "max-option-first,workers>max")
 	}
 	return res.sawSaturated || res.stopInFlight, labels
 }
@@ -699,6 +798,7 @@ func TestC02Random(t *testing.T) {
 		if rapid.IntRange(0, 3).Draw(t, "dns") == 0 {
 			c.DNSTTLms = rapid.SampledFrom([]int{5, 50, 1000}).Draw(t, "dnsttl")
 		}
+		c.MaxFirst = rapid.Bool().Draw(t, "maxfirst")
 		n := rapid.IntRange(1, 200).Draw(t, "len")
 		if rapid.Bool().Draw(t, "short") {
 			n = rapid.IntRange(1, 25).Draw(t, "len2")
@@ -717,6 +817,8 @@ func TestC02Random(t *testing.T) {
 				a.A = rapid.SampledFrom([]int{1, 50, 1500, 10000, 120000}).Draw(t, fmt.Sprintf("a%d", i))
 			case "stop":
 				a.A = rapid.SampledFrom([]int{1, 1, 2, 3, 8}).Draw(t, fmt.Sprintf("a%d", i))
+			case "burst":
+				a.A = rapid.SampledFrom([]int{2, 2, 3, 5, 16, 64}).Draw(t, fmt.Sprintf("a%d", i))
 			}
 			c.Script = append(c.Script, a)
 		}
@@ -744,11 +846,11 @@ func TestC02Exhaustive(t *testing.T) {
 		maxLen = 6
 	}
 	alphabet := map[string][]c02Act{
-		"tick": {{K: "tick"}}, "pstop": {{K: "pstop"}}, "consume": {{K: "consume"}}, "fail": {{K: "fail"}},
+		"tick": {{K: "tick"}}, "pstop": {{K: "pstop"}}, "consume": {{K: "consume"}}, "fail": {{K: "fail"}}, "bad": {{K: "bad"}}, "burst": {{K: "burst", A: 3}},
 		"complete":    {{K: "complete", A: 0}, {K: "complete", A: -1}}, // oldest / newest
 		"completeerr": {{K: "completeerr", A: 0}},
 		"sleep":       {{K: "sleep", A: 1500}},
-		"stop":     {{K: "stop", A: 1}, {K: "stop", A: 2}},
+		"stop":        {{K: "stop", A: 1}, {K: "stop", A: 2}},
 	}
 	shard, shards := vh.Shard(), vh.Shards()
 	unit := 0
@@ -774,7 +876,7 @@ func TestC02Exhaustive(t *testing.T) {
 		if depth == maxLen {
 			return
 		}
-		for _, k := range []string{"tick", "complete", "completeerr", "consume", "stop", "pstop", "fail", "sleep"} {
+		for _, k := range []string{"tick", "burst", "complete", "completeerr", "consume", "stop", "pstop", "fail", "bad", "sleep"} {
 			if k == "sleep" && len(c.Script) > 0 && c.Script[len(c.Script)-1].K == "sleep" {
 				continue // two sleeps in a row are one longer sleep
 			}
@@ -789,7 +891,7 @@ func TestC02Exhaustive(t *testing.T) {
 				if a.K == "complete" && a.A == -1 && res.started < 2 {
 					continue // oldest == newest
 				}
-				next := c02Case{Workers: c.Workers, MaxWorkers: c.MaxWorkers, DNSTTLms: c.DNSTTLms, Script: append(append([]c02Act(nil), c.Script...), a)}
+				next := c02Case{Workers: c.Workers, MaxWorkers: c.MaxWorkers, DNSTTLms: c.DNSTTLms, MaxFirst: c.MaxFirst, Script: append(append([]c02Act(nil), c.Script...), a)}
 				if depth == 1 { // shard on (config, first two actions)
 					unit++
 					if unit%shards != shard {
@@ -809,6 +911,13 @@ func TestC02Exhaustive(t *testing.T) {
 			saved := maxLen
 			maxLen = ml
 			dfs(c02Case{Workers: wk, MaxWorkers: mx, DNSTTLms: int(wk%2) * 50}, 0) // odd initial worker counts also get DNSCaching
+			if wk > mx {
+				// the two options given in the other order (matters only here), to a smaller depth
+				if maxLen > 5 {
+					maxLen = 5
+				}
+				dfs(c02Case{Workers: wk, MaxWorkers: mx, MaxFirst: true}, 0)
+			}
 			maxLen = saved
 		}
 	}
